@@ -74,13 +74,13 @@ def run_case(case, ctx):
 
 
 def shard_main(ctx):
-    if not ctx.explore("spec3d", cases(ctx, files.spec_file_3d()), run_case, ctx.n(120, 2500)):
+    if not ctx.explore("spec3d", cases(ctx, files.spec_file_3d()), run_case, ctx.n(300, 3000)):
         return
-    if not ctx.explore("spec2d", cases(ctx, files.spec_file_2d()), run_case, ctx.n(40, 600)):
+    if not ctx.explore("spec2d", cases(ctx, files.spec_file_2d()), run_case, ctx.n(100, 800)):
         return
-    if not ctx.explore("fixture3d", cases(ctx, files.fixture_files(3)), run_case, ctx.n(40, 600)):
+    if not ctx.explore("fixture3d", cases(ctx, files.fixture_files(3)), run_case, ctx.n(100, 800)):
         return
-    ctx.explore("fixture2d", cases(ctx, files.fixture_files(2)), run_case, ctx.n(10, 100))
+    ctx.explore("fixture2d", cases(ctx, files.fixture_files(2)), run_case, ctx.n(20, 150))
 
 
 def replay(case, ctx):
